@@ -454,13 +454,25 @@ class HintSane(object, metaclass=_HintSaneMetaclass):
         self.typearg_to_hint = typearg_to_hint
 
         # Hash identifying this object, precomputed for efficiency.
-        self._hash = hash((
-            hint,
-            hint_recursable_to_depth,
-            is_check_expr_cacheable,
-            is_hint_parent_pep484585_subclass,
-            typearg_to_hint,
-        ))
+        #
+        # Note that neither this hint nor the child hints of this type variable
+        # lookup table are necessarily hashable. The metaclass explicitly
+        # supports unhashable hints (e.g., "Literal[[]]", "list[Annotated[int,
+        # []]]", "GenericUser[{}]") by unmemoizing this metadata. Since the
+        # __eq__() dunder method compares hints by equality rather than hash,
+        # falling back to the object identifier of this metadata preserves the
+        # hash-equality contract for a single object while avoiding a
+        # non-human-readable "TypeError: unhashable type" on hashing this hint.
+        try:
+            self._hash = hash((
+                hint,
+                hint_recursable_to_depth,
+                is_check_expr_cacheable,
+                is_hint_parent_pep484585_subclass,
+                typearg_to_hint,
+            ))
+        except TypeError:
+            self._hash = id(self)
 
     # ..................{ DUNDERS                            }..................
     def __hash__(self) -> int:
